@@ -21,6 +21,10 @@ Judge(e) ==
          THEN "C02 with " \o e.r1 \o " stored, membership / add of the equal key " \o e.r2 \o " does not see it"
          ELSE IF ~same /\ (e.in2 # 0 \/ e.a2 # 1 \/ e.an # 2 \/ e.ag1 # "v1" \/ e.ag2 # "a2")
          THEN "C02 with " \o e.r1 \o " stored, membership / add of the distinct key " \o e.r2 \o " is confused with it"
+         ELSE IF same /\ (e.t2 # "1" \/ e.x1 # 2 \/ e.d2 # "1" \/ e.left3 # 0 \/ e.i2 # "6" \/ e.gi1 # "6")
+         THEN "C02 with " \o e.r1 \o " stored, touch / delete / incr through the equal key " \o e.r2 \o " do not reach it"
+         ELSE IF ~same /\ (e.t2 # "0" \/ e.x1 # 1 \/ e.d2 # "0" \/ e.left3 # 1 \/ e.g1c # "v1" \/ e.i2 # "KeyError" \/ e.gi1 # "5")
+         THEN "C02 with " \o e.r1 \o " stored, touch / delete / incr through the distinct key " \o e.r2 \o " reached it"
          ELSE IF e.types_ok # 1 THEN "C02 iteration returned a key that is not equal to / not of the type of the stored key (" \o e.r1 \o ", " \o e.r2 \o ")"
          ELSE IF e.rev_ok # 1 THEN "C02 sorted iteration forward and reverse disagree for " \o e.r1 \o ", " \o e.r2
          ELSE "ok"
